@@ -21,7 +21,7 @@ func init() {
 			"(8) all WorkerGrp.Do* delegate to ws[locHash(k)] with their own arguments and locHash(k) lies in [0, muxSize) for every key; the worker loop dequeues with PopAnyway and handles each item once. " +
 			"NOT decided: coherence when a callback fails after partially changing the store; ordering across workers; same-key serialisation under every schedule (follows informally from one FIFO worker per key, C12/C14).",
 		Assumptions: []string{"muxSize >= 1", "callbacks named load*/isNotFound* do not modify the store"},
-		Floors:      map[string]int{"C15.dispatch": 7, "C15.reply-once": 7, "C15.cache-set": 6, "C15.cache-delete": 1, "C15.refresh-on-hit": 5, "C15.dup-add": 1, "C15.key": 7, "C15.cache-writer": 7, "C15.route": 7, "C15.hash-range": 1, "C15.worker-loop": 2, "C15.facade": 4, "C15.reply-channel": 3},
+		Floors:      map[string]int{"C15.dispatch": 7, "C15.reply-once": 7, "C15.cache-set": 6, "C15.cache-delete": 1, "C15.refresh-on-hit": 5, "C15.dup-add": 1, "C15.key": 7, "C15.cache-writer": 7, "C15.route": 7, "C15.hash-range": 1, "C15.worker-loop": 2, "C15.facade": 4, "C15.reply-channel": 4},
 		Run:         runC15,
 	})
 }
@@ -770,6 +770,23 @@ func (c *Ctx) checkMuxReplyChannel() {
 					}
 				}
 			}
+		}
+		// every call gets a cell and a result channel of its own: a recycled cell (free list, sync.Pool) can still sit
+		// in a worker's queue when its caller has left on a cancelled context; the next call then shares it, runs twice
+		// (possibly on a worker that does not own its key) and the two callers read each other's reply
+		fresh := len(ts) > 0
+		for _, t := range ts {
+			if t.End != EndReturn {
+				continue
+			}
+			if r := t.Ret[0]; r.root() == nil || r.root().Kind != KAlloc {
+				fresh = false
+				c.violated("C15.reply-channel", "mux.NewAsync fresh", fn.Pos(), "NewAsync can return a cell that it did not allocate ("+c.short(r.Key())+"): a recycled cell may still be queued for, or in use by, an earlier call — operations are then applied twice or out of their key's order, and replies go to the wrong caller", c.witness(t, len(t.Events)-1)...)
+				break
+			}
+		}
+		if fresh {
+			c.holds("C15.reply-channel", "mux.NewAsync fresh", fn.Pos(), "a new cell per call")
 		}
 		c.check(good, "C15.reply-channel", "mux.NewAsync", fn.Pos(), "rChan has capacity >= 1", "the result channel is not buffered: the worker blocks in SetR whenever the caller has already left on its context, and every later operation of that worker waits behind it")
 	}
